@@ -43,6 +43,7 @@ def run_rules(mod, chk):
         generic.loops_iterate(chk)
         generic.params_not_cross_bound(chk)
         generic.params_not_dropped(chk)
+        generic.subscriptions_rearmed(chk)
     chk.repo.on_func = None
     return chk
 
